@@ -10,6 +10,7 @@
 package main
 
 import (
+	"sync"
 	"log"
 	"bufio"
 	"bytes"
@@ -304,6 +305,12 @@ func matrix(rng *rand.Rand, extra int) []reqSpec {
 			out = append(out, reqSpec{"controller", st + "+" + pre.Method + "|" + pre.Path + "|" + orDash(pre.Action), "GET", "/v1/replicas", "empty", ""})
 		}
 	}
+	// concurrent clients: a read of the resource against an action
+	for _, a := range []string{"setreplicamode", "snapshot", "setrebuilding", "setrevisioncounter", "setcheckpoint", "close"} {
+		out = append(out, reqSpec{"replica", "open", "STRESS", "/v1/replicas/1?action=" + a, "valid", a})
+	}
+	out = append(out, reqSpec{"controller", "full", "STRESS", "/v1/volumes/dg==?action=snapshot", "valid", "c-snapshot"})
+	out = append(out, reqSpec{"controller", "started", "STRESS", "/v1/register", "valid", "c-register"})
 	// overlapping adds of one address (both inside factory.Create at the same time), then every state-changing route
 	for _, st := range []string{"started", "full"} {
 		for _, ovl := range []string{"OVL-dd", "OVL-qq", "OVL-dq"} {
@@ -537,6 +544,64 @@ func doOne(r reqSpec, out *bufio.Writer) {
 					resp.Body.Close()
 				}
 			}
+		}
+		if r.Method == "STRESS" {
+			// requests are not only sent one after the other: for a second, six clients alternate a read of the
+			// resource with the action; nothing may hang, and the lock must be free afterwards
+			stop := time.Now().Add(1200 * time.Millisecond)
+			var mu sync.Mutex
+			worst := "2xx"
+			var wg sync.WaitGroup
+			for k := 0; k < 6; k++ {
+				wg.Add(1)
+				go func(k int) {
+					defer wg.Done()
+					c2 := &http.Client{Timeout: 5 * time.Second}
+					for i := 0; time.Now().Before(stop); i++ {
+						var req *http.Request
+						if (i+k)%2 == 0 {
+							req, _ = http.NewRequest("GET", srv.URL+follow, nil)
+						} else {
+							req, _ = http.NewRequest("POST", srv.URL+r.Path, body("valid", r.Action))
+							req.Header.Set("Content-Type", "application/json")
+						}
+						resp, err := c2.Do(req)
+						if err != nil {
+							mu.Lock()
+							if strings.Contains(err.Error(), "Timeout") || strings.Contains(err.Error(), "deadline") {
+								worst = "hang"
+							} else if worst != "hang" {
+								worst = "panic"
+							}
+							mu.Unlock()
+							return
+						}
+						io.Copy(io.Discard, resp.Body)
+						resp.Body.Close()
+					}
+				}(k)
+			}
+			wg.Wait()
+			lock := "free"
+			if !tryLock() {
+				time.Sleep(300 * time.Millisecond)
+				if !tryLock() {
+					lock = "held"
+				}
+			}
+			fstatus := "-"
+			if lock == "free" && worst != "hang" {
+				if resp, err := cl.Get(srv.URL + follow); err != nil {
+					fstatus = "dead"
+				} else {
+					io.Copy(io.Discard, resp.Body)
+					resp.Body.Close()
+					fstatus = classify(resp.StatusCode)
+				}
+				cleanup()
+			}
+			done <- fmt.Sprintf("status=%s lock=%s followup=%s retry=-", worst, lock, fstatus)
+			return
 		}
 		n := 1
 		if strings.HasPrefix(r.Action, "start-x") {
